@@ -307,9 +307,22 @@ def build(node):
         if k == 'multi':
             obj = vcore.MultistageDistributor(objs, depth=node['depth'])
         else:
-            obj = vcore.UnusedVotesDistributor(objs, list(node['quotas']), depth=node['depth'])
+            obj = vcore.UnusedVotesDistributor(objs, None if node['quotas'] is None else list(node['quotas']),
+                                               depth=node['depth'])
     elif k == 'plist':
-        obj = vcore.PartyListEvaluator(sub('party'))
+        o = node.get('open')
+        if o is None:
+            le = None
+        elif o['k'] == 'list_order':
+            import votelib.evaluate.openlist as vopen
+            le = vopen.ListOrderTieBreaker(vcore.Plurality())
+        else:
+            import votelib.evaluate.openlist as vopen
+            le = vopen.ThresholdOpenList(
+                jump_fraction=None if o.get('jump_fraction') is None else Fraction(o['jump_fraction']),
+                quota_function=o.get('quota'), quota_fraction=Fraction(o['quota_fraction']),
+                take_higher=o['take_higher'], accept_equal=o['accept_equal'], list_precedence=o['list_precedence'])
+        obj = vcore.PartyListEvaluator(sub('party'), le)
     elif k == 'vs':
         obj = votelib.VotingSystem('system', sub('e'))
     else:
@@ -342,6 +355,10 @@ LEAF_TAKES = {'plurality': ('n',), 'input_order': ('n',), 'ha': ('n', 'prev', 'm
 class Hand:
     def __init__(self):
         self.trace = []      # (B, votes, kw, ('ok', result) | ('err', name)) in completion order
+        self.notes = set()   # what the wrappers' own logic had to do on this input (generator statistics)
+
+    def note(self, tag):
+        self.notes.add(tag)
 
     def run(self, b, votes, kw):
         votes0, kw0 = clone(votes), clone(kw)
@@ -364,14 +381,22 @@ class Hand:
             # a fixed seat count equals passing that count
             kw2 = dict(kw)
             kw2['n'] = dec(b.node['n'])
-            return self.run(K['e'], votes, kw2)
+            r = self.run(K['e'], votes, kw2)
+            self.note('sem:fixed:value')
+            return r
         if k == 'vs':
             return self.run(K['e'], votes, kw)
         if k == 'pre':
             # converting, then evaluating
-            return self.run(K['e'], b.obj.converter.convert(clone(votes)), kw)
+            r = self.run(K['e'], b.obj.converter.convert(clone(votes)), kw)
+            self.note('sem:pre:' + b.node['c']['c'])
+            return r
         if k == 'post':
-            return b.obj.converter.convert(self.run(K['e'], votes, kw))
+            r = b.obj.converter.convert(self.run(K['e'], votes, kw))
+            self.note('sem:post:' + b.node['c']['c'])
+            if b.node['c']['c'] == 'by_constituency':
+                self.note('sem:post:by_constituency:' + b.node['c']['inner']['c'])
+            return r
         if k == 'tb':
             return self._tie_breaking(b, votes, kw)
         if k == 'cond':
@@ -381,11 +406,17 @@ class Hand:
         if k == 'preapp':
             self._no_lists(kw)
             seats = self._apportion(b, votes, kw.get('n'))
-            return self.run(K['e'], votes, {'n': seats, 'prev': kw.get('prev', {}), 'max': kw.get('max', {})})
+            r = self.run(K['e'], votes, {'n': seats, 'prev': kw.get('prev', {}), 'max': kw.get('max', {})})
+            self.note('sem:preapp:value')
+            return r
         if k == 'remapp':
             self._no_lists(kw)
-            return self.run(K['e'], votes, {'n': sum(kw['n'].values()) if isinstance(kw.get('n'), dict) else _bad_seats(),
-                                            'prev': kw.get('prev', {}), 'max': kw.get('max', {})})
+            r = self.run(K['e'], votes, {'n': sum(kw['n'].values()) if isinstance(kw.get('n'), dict) else _bad_seats(),
+                                         'prev': kw.get('prev', {}), 'max': kw.get('max', {})})
+            self.note('sem:remapp:value')
+            if len(kw['n']) >= 2:
+                self.note('sem:remapp:2plus_constituencies')
+            return r
         if k == 'byparty':
             return self._by_party(b, votes, kw)
         if k == 'multi':
@@ -411,7 +442,15 @@ class Hand:
                 if isinstance(key, vcore.Tie):
                     del out[key]
                     among = {c: v for c, v in votes.items() if c in key}
-                    for c in self.run(b.kids['tb'], among, {'n': seats}):
+                    chosen = list(self.run(b.kids['tb'], among, {'n': seats}))
+                    self.note('sem:tb:tie_in_distribution')
+                    if seats >= 2:
+                        self.note('sem:tb:tie_2plus_seats')
+                    if any(isinstance(c, vcore.Tie) for c in chosen):
+                        self.note('sem:tb:tiebreaker_ties_again')
+                    else:
+                        self.note('sem:tb:tie_resolved')
+                    for c in chosen:
                         out[c] = out.get(c, 0) + 1
             return out
         if isinstance(main, list):
@@ -424,6 +463,17 @@ class Hand:
                 places = [i for i, x in enumerate(out) if isinstance(x, vcore.Tie) and x == tie]
                 among = {c: v for c, v in votes.items() if c in tie}
                 chosen = list(self.run(b.kids['tb'], among, {'n': len(places)}))
+                self.note('sem:tb:tie_in_selection')
+                if len(places) >= 2:
+                    self.note('sem:tb:tie_2plus_seats')
+                if len(tie) >= 3:
+                    self.note('sem:tb:tie_3plus_members')
+                if any(isinstance(c, vcore.Tie) for c in chosen):
+                    self.note('sem:tb:tiebreaker_ties_again')
+                else:
+                    self.note('sem:tb:tie_resolved')
+                    if b.kids['main'].kind == 'tb':
+                        self.note('sem:tb:outer_resolves_what_inner_left')
                 if len(chosen) > len(places):
                     raise ValueError('tiebreaker chose more candidates than tied places')
                 for i, c in zip(places, chosen):
@@ -440,7 +490,18 @@ class Hand:
         passed = self.run(b.kids['elim'], _totals(votes, depth), {'prev': _totals(prev, depth)})
         kw2 = _no_seats_form(b.kids['e'], dict(kw))
         kw2['prev'] = prev
-        return self.run(b.kids['e'], _restrict(votes, passed, depth), kw2)
+        tot = _totals(votes, depth)
+        kept = [c for c in tot if c in passed]
+        if 0 < len(kept) < len(tot):
+            self.note('sem:cond:eliminates_some_depth%d' % min(depth, 2))
+        elif not kept:
+            self.note('sem:cond:eliminates_all')
+        if _flat_total(prev, depth) and b.kids['elim'].kind == 'prev_gain_thr':
+            self.note('sem:cond:eliminator_uses_prev_gains')
+        r = self.run(b.kids['e'], _restrict(votes, passed, depth), kw2)
+        if 'n' not in kw2:
+            self.note('sem:cond:no_seat_count_value')
+        return r
 
     def _apportion(self, b, votes, n):
         a = b.node.get('app')
@@ -467,6 +528,9 @@ class Hand:
         n = kw.get('n')
         prev, mx = kw.get('prev', {}), kw.get('max', {})
         seats = self._apportion(b, votes, n)
+        if 'n' not in takes(b.kids['e']):
+            # each constituency is evaluated WITH ITS SEATS: a part that takes no seat count cannot be composed
+            raise TypeError('the constituency evaluator takes no seat count')
         allowed = None
         if 'pre' in b.kids:
             allowed = self.run(b.kids['pre'], _totals(votes, 2), _no_seats_form(b.kids['pre'], {'n': n}))
@@ -483,6 +547,24 @@ class Hand:
             else:
                 out[con] = r
         kinds = [type(r) for r in out.values()]
+        if len(kinds) >= 2:
+            self.note('sem:bycon:2plus_evaluated')
+        if empty and kinds:
+            self.note('sem:bycon:zero_seat_next_to_evaluated')
+        if not kinds:
+            self.note('sem:bycon:none_evaluated')
+        if any(con not in seats for con in votes):
+            self.note('sem:bycon:district_missing_from_apportionment')
+        if allowed is not None and any(c not in allowed for cv in votes.values() for c in cv) and kinds:
+            self.note('sem:bycon:preselector_eliminates')
+        if b.kids['e'].kind in ('plurality', 'input_order') or (kinds and kinds[0] is list):
+            self.note('sem:bycon:selector_inside')
+        if 'app' in b.kids and kinds:
+            self.note('sem:bycon:apportioned_by_evaluator')
+        if any(_flat_total(prev.get(con, {}), 1) for con in out) and kinds:
+            self.note('sem:bycon:prev_gains_per_district')
+        if any(isinstance(seats.get(con), int) and seats.get(con) > len(votes[con]) for con in votes) and kinds:
+            self.note('sem:bycon:more_seats_than_candidates')
         for con in empty:
             out[con] = kinds[0]() if kinds else EMPTY
         return out
@@ -499,6 +581,13 @@ class Hand:
             pmax = {con: g[party] for con, g in mx.items() if party in g}
             for con, s in self.run(alloc, pvotes, {'n': seats, 'prev': pprev, 'max': pmax}).items():
                 out.setdefault(con, {})[party] = s
+        self.note('sem:byparty:value')
+        if len(overall) >= 2 and len(votes) >= 2:
+            self.note('sem:byparty:2plus_parties_2plus_constituencies')
+        if 'alloc' not in b.kids:
+            self.note('sem:byparty:overall_reused_as_allocator')
+        if _flat_total(prev, 2) or _flat_total(mx, 2):
+            self.note('sem:byparty:gains_columns')
         return out
 
     # multi-stage distribution equals chaining the stages with accumulated previous gains
@@ -507,9 +596,25 @@ class Hand:
         acc = clone(kw.get('prev', {}))
         rounds = b.kids['rounds']
         per_stage = [votes] * len(rounds) if isinstance(votes, dict) else list(votes)
+        awarded = []
         for st, sv in zip(rounds, per_stage):
             r = self.run(st, sv, {'n': kw.get('n'), 'prev': clone(acc), 'max': kw.get('max', {})})
+            awarded.append(_flat_total(r, depth))
             acc = _nested_add(acc, r, depth)
+        if len(rounds) >= 2 and sum(1 for x in awarded if x > 0) >= 2:
+            self.note('sem:multi:2plus_stages_award')
+        if len(rounds) >= 3:
+            self.note('sem:multi:3plus_stages')
+        if len(rounds) >= 2 and any(x == 0 for x in awarded) and any(x > 0 for x in awarded):
+            self.note('sem:multi:a_stage_awards_nothing')
+        if depth >= 2 and any(x > 0 for x in awarded):
+            self.note('sem:multi:depth2_value')
+        if _flat_total(kw.get('prev', {}), depth) and any(x > 0 for x in awarded):
+            self.note('sem:multi:prev_gains_value')
+        if _flat_total(kw.get('max', {}), depth) and any(x > 0 for x in awarded):
+            self.note('sem:multi:max_seats_value')
+        if not isinstance(votes, dict):
+            self.note('sem:multi:votes_per_stage')
         return acc
 
     def _unused(self, b, votes, kw):
@@ -521,7 +626,9 @@ class Hand:
         acc = clone(kw.get('prev', {}))
         n = kw.get('n')
         rounds = b.kids['rounds']
-        quotas = [vquota.construct(q) for q in b.node['quotas']] + [None]
+        quotas = [vquota.construct(q) for q in resolve_quotas(b.node)] + [None]
+        if b.node['quotas'] is None and len(rounds) >= 2:
+            self.note('sem:unused:default_quota_functions')
         for st, q in zip(rounds, quotas):
             r = self.run(st, votes, {'n': n})
             acc = _nested_add(acc, r, depth)
@@ -539,10 +646,41 @@ class Hand:
     def _party_list(self, b, votes, kw):
         if 'pl' not in kw:
             raise TypeError('party_lists missing')
-        if kw.get('lv'):
-            raise ValueError('list votes given but no list evaluator')
         won = self.run(b.kids['party'], votes, {a: v for a, v in kw.items() if a in ('n', 'prev', 'max')})
-        return {party: list(kw['pl'][party][:seats]) for party, seats in won.items()}
+        if b.node.get('open') is None:
+            if kw.get('lv'):
+                raise ValueError('list votes given but no list evaluator')
+            out = {party: list(kw['pl'][party][:seats]) for party, seats in won.items()}
+            self.note('sem:plist:closed_value')
+        else:
+            if not kw.get('lv'):
+                raise ValueError('no list votes for open list evaluation')
+            # the list evaluator is a part: the same object, given the party's list votes, seats and list
+            out = {party: b.obj.list_eval.evaluate(clone(kw['lv'][party]), seats, list(kw['pl'][party]))
+                   for party, seats in won.items()}
+            self.note('sem:plist:open_value')
+            if any(list(out[p]) != list(kw['pl'][p][:won[p]]) for p in won):
+                self.note('sem:plist:open_differs_from_closed')
+        if any(seats > len(kw['pl'][party]) for party, seats in won.items()):
+            self.note('sem:plist:more_seats_than_list_members')
+        if any(len(kw['pl'][party]) == 0 for party in won):
+            self.note('sem:plist:empty_list_of_a_seated_party')
+        if len(won) >= 2:
+            self.note('sem:plist:2plus_parties')
+        return out
+
+
+def _stage_leaf(node):
+    while node['k'] in ('bycon', 'vs', 'pre', 'post'):
+        node = node['e']
+    return node
+
+
+def resolve_quotas(node):
+    """`quota_functions=None`: the constructor takes the quota function of every round but the last"""
+    if node.get('quotas') is not None:
+        return list(node['quotas'])
+    return [r['quota'] for r in node['rounds'][:-1]]     # the attribute `quota_function` of the round itself
 
 
 class Unspecified(Exception):
@@ -643,6 +781,10 @@ def impl(case):
         return {'res': {'err': 'build:' + err_name(e)}, 'flags': []}
     votes, kw = _args(case)
     watch = []
+    if case.get('warm') is not None:
+        # the same wrapper OBJECT is evaluated on another input first; wrappers keep no state
+        wv, wkw = _args({'args': case['warm']})
+        guarded(lambda: call_obj(root.obj, wv, wkw))
     res = guarded(lambda: enc(call_obj(root.obj, votes, kw, watch)))
     ams = getattr(vcore, 'accepts_max_seats', None)
     sopt = getattr(vcore, 'seats_optional', None)
@@ -871,8 +1013,22 @@ def signature(case, clause):
     return f'eval_tree:{clause}'
 
 
+def _resolved(node):
+    if isinstance(node, dict):
+        out = {k: _resolved(v) for k, v in node.items()}
+        if node.get('k') == 'unused' and node.get('quotas') is None:
+            out['quotas'] = resolve_quotas(node)
+        return out
+    if isinstance(node, list):
+        return [_resolved(v) for v in node]
+    return node
+
+
 def model_line(case):
-    return strip_case(case)
+    c = strip_case(case)
+    c['tree'] = _resolved(c['tree'])       # the interpreter is given the quota functions the constructor picks
+    c.pop('warm', None)                    # the interpreter has no state: only the call itself
+    return c
 
 
 # ------------------------------------------------------------------------------------------------
@@ -961,7 +1117,11 @@ def describe_node(n):
     if k == 'unused':
         return 'UnusedVotesDistributor([' + ', '.join(d(r) for r in n['rounds']) + f'], {n["quotas"]}, depth={n["depth"]})'
     if k == 'plist':
-        return f'PartyListEvaluator({d(n["party"])})'
+        o = n.get('open')
+        le = ('' if o is None else ', ListOrderTieBreaker(Plurality())' if o['k'] == 'list_order' else
+              ', ThresholdOpenList(' + ', '.join(f'{a}={o[a]!r}' for a in ('jump_fraction', 'quota', 'quota_fraction',
+                                                                          'take_higher', 'accept_equal', 'list_precedence')) + ')')
+        return f'PartyListEvaluator({d(n["party"])}{le})'
     if k == 'vs':
         return f'VotingSystem("system", {d(n["e"])})'
     return k
@@ -1086,6 +1246,8 @@ def g_unused(rng, n_rounds, depth):
         # as the constructor does by default: the quota of the stage itself; sometimes another one
         quotas.append(inner['quota'] if inner['k'] in ('qd', 'lr') and rng.random() < 0.7
                       else rng.choice(['droop', 'hagenbach_bischoff', 'hare']))
+    if all(st['k'] in ('qd', 'lr') for st in rounds[:-1]) and rng.random() < 0.5:
+        quotas = None       # the constructor's default: the quota functions of the rounds themselves
     return {'k': 'unused', 'rounds': rounds, 'quotas': quotas, 'depth': depth}
 
 
@@ -1196,9 +1358,9 @@ def _amount_one(node):
 
 def g_app(rng, d, cons, kind):
     if kind == 'app_int':
-        return {'int': str(rng.randint(0, 3) if rng.random() < 0.2 else rng.randint(1, 4))}
+        return {'int': str(rng.choice([0, 0, 9, 9, 12, 1, 2]) if rng.random() < 0.3 else rng.randint(1, 4))}
     if kind == 'app_dict':
-        return {'dict': [[c, str(rng.choice([0, 1, 1, 2, 3, 4]))] for c in cons]}
+        return {'dict': [[c, str(rng.choice([0, 1, 1, 2, 3, 4, 9]))] for c in cons]}
     if kind == 'app_dist':
         return {'ev': g_d1(rng, max(d, 0)) if rng.random() < 0.5 else leaf('ha', divisor=rng.choice(DIVS))}
     if kind == 'app_dist_seatless':
@@ -1231,6 +1393,9 @@ def g_d2(rng, d, cons, spec, gains=False):
     if k == 'preapp':
         return {'k': 'preapp', 'e': g_d2(rng, d - 1, cons, 'dict', gains), 'app': g_app(rng, d - 2, cons, app_kind or 'app_int')}
     if k == 'cond2':
+        if rng.random() < 0.25:
+            return {'k': 'pre', 'c': {'c': 'by_constituency', 'inner': {'c': 'chain', 'cs': [{'c': 'inverted_simple'}, {'c': 'inverted_simple'}]}},
+                    'e': g_d2(rng, d - 1, cons, spec, gains)}
         return {'k': 'cond', 'elim': g_el(rng, 0), 'e': g_d2(rng, d - 1, cons, spec, gains), 'depth': 2}
     if k == 'multi2':
         return {'k': 'multi', 'rounds': [g_d2(rng, d - 1, cons, spec, True) for _ in range(rng.randint(1, 2))], 'depth': 2}
@@ -1245,7 +1410,21 @@ def g_d2(rng, d, cons, spec, gains=False):
 
 def g_f2(rng, d, cons, spec):
     """nested votes -> flat distribution"""
-    k = rng.choice(['post_merge', 'pre_totals', 'post_totals'])
+    k = rng.choice(['post_merge', 'post_merge', 'pre_totals', 'post_totals', 'post_totals', 'post_totals', 'post_bc',
+                    'post_bc_chain', 'remapp', 'remapp'])
+    if k in ('post_bc', 'post_bc_chain') and d > 1:
+        # selections per constituency -> distributions per constituency (-> one distribution): the converter
+        # changes the kind of value / the key level
+        s2d = {'c': 'by_constituency', 'inner': {'c': 'sel_to_dist', 'amount': str(rng.choice([1, 1, 2]))}}
+        conv = s2d if k == 'post_bc' else {'c': 'chain', 'cs': [s2d, {'c': 'merged_distributions'}]}
+        app_kind = spec if spec.startswith('app') else None
+        inner = {'k': 'bycon', 'e': g_s1(rng, max(d - 2, 0)), 'app': g_app(rng, d - 2, cons, app_kind)}
+        return {'k': 'post', 'e': inner, 'c': conv}, spec
+    if k == 'remapp' and d > 1:
+        # PreApportioned hands a table of seats on, RemovedApportionment sums it up again for a national evaluator
+        kind = rng.choice(['app_int', 'app_dict', 'app_dist'])
+        nat = {'k': 'pre', 'c': {'c': 'vote_totals'}, 'e': g_d1(rng, max(d - 3, 0), True)}
+        return {'k': 'preapp', 'e': {'k': 'remapp', 'e': nat}, 'app': g_app(rng, 0, cons, kind)}, kind
     if k == 'post_merge' and d > 1:
         return {'k': 'post', 'e': g_d2(rng, d - 1, cons, spec), 'c': {'c': 'merged_distributions'}}, spec
     if k == 'post_totals' and d > 1:
@@ -1258,10 +1437,13 @@ VALS = [0, 1, 1, 2, 2, 3, 3, 4, 6, 6, 12]
 
 def g_simple_votes(rng, parties=None, frac=False):
     parties = parties or rng.sample(range(CANDS), rng.randint(2, 5))
-    scale = rng.choice([1, 1, 1, 5, 100])
+    scale = rng.choice([1, 1, 1, 5, 100, 10 ** 9, 2 ** 53, 10 ** 18, 10 ** 30])
     vals = [rng.choice(VALS) * scale for _ in parties]
+    if scale > 100 and rng.random() < 0.6:
+        # near ties and exact ties at that magnitude
+        vals = [v + rng.choice([0, 0, 1, -1]) if v else v for v in vals]
     if frac and rng.random() < 0.5:
-        vals = [Fraction(v, rng.choice([1, 2, 3])) for v in vals]
+        vals = [Fraction(v, rng.choice([1, 2, 3, 7, 10 ** 6 + 3])) for v in vals]
     if sum(vals) == 0:
         vals[0] = 1
     return {'dict': [[p, num_str(v)] for p, v in zip(parties, vals)]}
@@ -1272,7 +1454,7 @@ def g_nested_votes(rng, cons, parties):
     for c in cons:
         ps = [p for p in parties if rng.random() < 0.85] or parties[:1]
         rng.shuffle(ps)
-        out.append([c, g_simple_votes(rng, ps)])
+        out.append([c, g_simple_votes(rng, ps, frac=rng.random() < 0.1)])
     return {'dict': out}
 
 
@@ -1352,7 +1534,63 @@ def mk_case(tree, args, tags):
             tags.append('elim_prev_gains')
         if n['k'] in ('cond', 'bycon') and n['e']['k'] in ('tb', 'pre', 'post', 'fixed', 'vs') and takes_gains_json(n['e']):
             tags.append('fix_904ccca_shape')
+        if n['k'] == 'bycon':
+            if n['e']['k'] == 'fixed':
+                tags.append('fixed_as_district_evaluator')
+            if isinstance(n.get('app'), dict) and 'ev' in n['app'] and n['app']['ev']['k'] == 'fixed':
+                tags.append('fixed_as_apportioner')
+            if isinstance(n.get('pre'), dict) and n['pre']['k'] == 'fixed':
+                tags.append('fixed_as_preselector')
+            a = n.get('app')
+            if isinstance(a, dict) and 'int' in a:
+                tags.append('seats:app_int_zero' if Fraction(a['int']) == 0 else
+                            'seats:app_int_exceeds_candidates' if Fraction(a['int']) >= 9 else 'seats:app_int_usual')
+            if isinstance(a, dict) and 'dict' in a:
+                vals = [Fraction(v) for _, v in a['dict']]
+                if 0 in vals:
+                    tags.append('seats:app_dict_zero')
+                if any(v >= 9 for v in vals):
+                    tags.append('seats:app_dict_exceeds_candidates')
+        if n['k'] == 'fixed' and Fraction(n['n']) >= 9:
+            tags.append('seats:fixed_exceeds_candidates')
+    nn = args.get('n')
+    if isinstance(nn, str):
+        tags.append('seats:int_zero' if Fraction(nn) == 0 else
+                    'seats:int_exceeds_candidates' if Fraction(nn) >= 9 else 'seats:int_usual')
+    if isinstance(nn, dict):
+        vals = [Fraction(v) for _, v in nn['dict']]
+        if 0 in vals:
+            tags.append('seats:dict_zero')
+        if any(v >= 9 for v in vals):
+            tags.append('seats:dict_exceeds_candidates')
+    nums = list(_vote_numbers(args.get('votes')))
+    if any(v.denominator != 1 for v in nums):
+        tags.append('num:fraction_votes')
+    if any(v.denominator > 10 ** 6 for v in nums):
+        tags.append('num:fraction_votes_big_denominator')
+    if any(abs(v) >= 10 ** 18 for v in nums):
+        tags.append('num:votes_1e18_or_more')
+    if any(abs(v) >= 10 ** 18 for v in nums) and any(0 < abs(a - b) <= 1 for a in nums for b in nums):
+        tags.append('num:near_tie_at_magnitude')
+    if sum(1 for v in nums if v == 0) >= 2:
+        tags.append('num:zero_vote_parties_2plus')
+    pv = args.get('prev')
+    if isinstance(pv, dict) and isinstance(args.get('votes'), dict):
+        vk = {k for k, _ in args['votes']['dict']}
+        if any(not isinstance(v, dict) and k not in vk for k, v in pv['dict']):
+            tags.append('prev_gains_for_party_absent_from_votes')
     return {'op': 'eval_tree', 'tree': tree, 'args': args, '_tags': sorted(set(tags))}
+
+
+def _vote_numbers(v):
+    if isinstance(v, str):
+        yield Fraction(v)
+    elif isinstance(v, list):
+        for x in v:
+            yield from _vote_numbers(x)
+    elif isinstance(v, dict) and 'dict' in v:
+        for _, x in v['dict']:
+            yield from _vote_numbers(x)
 
 
 def _nodes(node):
@@ -1366,7 +1604,7 @@ def gen_flat(rng, d, kind):
     frac = rng.random() < 0.15
     votes = g_simple_votes(rng, frac=frac)
     ps = parties_of(votes)
-    n = rng.randint(1, 6)
+    n = rng.choice([0, 9, 12]) if rng.random() < 0.08 else rng.randint(1, 6)
     tags = ['seatspec:int']
     args = {'votes': votes, 'n': str(n)}
     if kind == 'S1':
@@ -1399,9 +1637,13 @@ def gen_flat(rng, d, kind):
 def gen_nested(rng, d):
     cons = [CON0 + i for i in range(rng.randint(1, 4))]
     parties = rng.sample(range(CANDS), rng.randint(2, 5))
+    clash = rng.random() < 0.12
+    if clash:
+        # constituencies NAMED LIKE parties (the same objects serve as keys on both levels)
+        cons = (parties + [p for p in range(CANDS) if p not in parties])[:len(cons)]
     votes = g_nested_votes(rng, cons, parties)
     spec = rng.choice(SEATSPECS)
-    flat = rng.random() < 0.25 and d > 1
+    flat = rng.random() < 0.35 and d > 1
     if flat:
         tree, spec = g_f2(rng, d, cons, spec)
     else:
@@ -1409,24 +1651,26 @@ def gen_nested(rng, d):
     args = {'votes': votes}
     n = None
     if spec == 'int':
-        n = rng.randint(1, 6)
+        n = rng.choice([0, 9, 12]) if rng.random() < 0.08 else rng.randint(1, 6)
         args['n'] = str(n)
     elif spec == 'app_dist':
         n = rng.randint(2 * len(cons), 3 * len(cons) + 2)     # mostly every constituency gets a seat
         args['n'] = str(n)
     elif spec == 'dict':
-        args['n'] = {'dict': [[c, str(rng.choice([0, 1, 1, 2, 3]))] for c in cons]}
+        args['n'] = {'dict': [[c, str(rng.choice([0, 1, 1, 2, 3, 9]))] for c in cons]}
     elif spec in ('app_int', 'app_dict'):
         if rng.random() < 0.3:
             args['n'] = str(rng.randint(1, 5))     # ignored: the fixed apportioner wins
-    tags = ['seatspec:' + spec]
+    tags = ['seatspec:' + spec] + (['name_clash'] if clash else [])
     if 'n' not in args:
         tags.append('seatspec:none')
         if needs_n(tree):
             args['n'] = None        # n_seats is a required parameter there: "no seat count" is written None
             if root_kind(tree) == 'unused':     # its quota arithmetic needs numbers
                 args['n'] = {'dict': [[c, str(rng.choice([1, 2, 3]))] for c in cons]}
-    if takes_gains_json(tree) and tree['k'] != 'pre':
+    if 'remapp' in set(tree_kinds(tree)) and tree['k'] == 'preapp':
+        pass        # the national evaluator behind RemovedApportionment takes flat gains; none are given
+    elif takes_gains_json(tree) and not (tree['k'] == 'pre' and tree['c']['c'] == 'vote_totals'):
         if rng.random() < 0.5:
             args['prev'] = {'dict': [[c, g_gains(rng, parties, 2)] for c in cons if rng.random() < 0.7]}
         if rng.random() < 0.35:
@@ -1439,19 +1683,109 @@ def gen_nested(rng, d):
 def gen_party_list(rng, d):
     votes = g_simple_votes(rng)
     ps = parties_of(votes)
-    n = rng.randint(1, 6)
+    n = rng.randint(1, 9)
     party = g_d1(rng, d - 1, rng.random() < 0.5)
     tree = {'k': 'plist', 'party': party}
+    lists = {p: [PERS0 + 10 * p + i for i in range(rng.randint(0, 7))] for p in ps}
+    for p in ps:
+        rng.shuffle(lists[p])
+    args = {'votes': votes, 'n': str(n), 'pl': {'dict': [[p, lists[p]] for p in ps]}}
+    if rng.random() < 0.45:
+        # open lists: preferential votes for the persons of every list
+        if rng.random() < 0.3:
+            tree['open'] = {'k': 'list_order'}
+        else:
+            tree['open'] = {'k': 'threshold',
+                            'jump_fraction': rng.choice([None, '1/20', '1/10', '1/4']),
+                            'quota': rng.choice([None, 'hare', 'droop', 'hagenbach_bischoff']),
+                            'quota_fraction': rng.choice(['1', '1/2', '1/4']),
+                            'take_higher': rng.random() < 0.5, 'accept_equal': rng.random() < 0.6,
+                            'list_precedence': rng.random() < 0.5}
+        args['lv'] = {'dict': [[p, {'dict': [[q, str(rng.choice([0, 1, 2, 5, 5, 10, 40, 100]))] for q in lists[p]]}]
+                               for p in ps]}
     if rng.random() < 0.3 and d > 1:
         tree = {'k': rng.choice(['vs', 'pre', 'cond']), 'e': tree}
         if tree['k'] == 'pre':
             tree['c'] = {'c': 'chain', 'cs': []}
         if tree['k'] == 'cond':
             tree.update(elim=g_thr(rng), depth=1)
-    args = {'votes': votes, 'n': str(n),
-            'pl': {'dict': [[p, [PERS0 + 10 * p + i for i in range(rng.randint(0, 7))]] for p in ps]}}
     if takes_gains_json(party) and rng.random() < 0.5:
         args['prev'] = g_gains(rng, ps, n)
+    return mk_case(tree, args, ['seatspec:int'])
+
+
+def gen_by_party(rng):
+    """ByParty directly: overall result on the totals, each party's seats allocated over the constituencies"""
+    parties = rng.sample(range(CANDS), rng.randint(2, 5))
+    cons = [CON0 + i for i in range(rng.randint(1, 4))]
+    tags = ['seatspec:int']
+    if rng.random() < 0.15:
+        cons = (parties + [p for p in range(CANDS) if p not in parties])[:len(cons)]
+        tags.append('name_clash')
+    votes = g_nested_votes(rng, cons, parties)
+    overall = rng.choice([leaf('ha', divisor=rng.choice(DIVS)), g_quota_leaf(rng, 'lr', True),
+                          {'k': 'tb', 'main': leaf('ha', divisor='d_hondt'), 'tb': leaf('input_order')}])
+    alloc = None if rng.random() < 0.4 else rng.choice([leaf('ha', divisor=rng.choice(DIVS)), g_quota_leaf(rng, 'lr', True)])
+    tree = {'k': 'byparty', 'overall': overall, 'alloc': alloc}
+    args = {'votes': votes, 'n': str(rng.randint(2, 9))}
+    if rng.random() < 0.5:
+        args['prev'] = {'dict': [[c, g_gains(rng, parties, 2)] for c in cons if rng.random() < 0.7]}
+    if rng.random() < 0.3:
+        args['max'] = {'dict': [[c, g_caps(rng, parties, 3)] for c in cons if rng.random() < 0.7]}
+    if rng.random() < 0.3:
+        tree = {'k': 'multi', 'rounds': [{'k': 'bycon', 'e': leaf('ha', divisor='d_hondt'), 'app': None},
+                                         {'k': 'remapp', 'e': tree}], 'depth': 2}
+        args['n'] = {'dict': [[c, str(rng.randint(1, 4))] for c in cons]}
+        tags = [t for t in tags if t != 'seatspec:int'] + ['seatspec:dict']
+    return mk_case(tree, args, tags)
+
+
+def gen_votes_per_stage(rng):
+    """MultistageDistributor given a LIST of votes, one per round (also fewer / more votes than rounds)"""
+    parties = rng.sample(range(CANDS), rng.randint(2, 5))
+    k = rng.randint(2, 4)
+    rounds = [rng.choice([leaf('ha', divisor=rng.choice(DIVS)), g_quota_leaf(rng, 'qd', True), g_quota_leaf(rng, 'lr', True)])
+              for _ in range(k)]
+    n_votes = k if rng.random() < 0.8 else rng.choice([k - 1, k + 1])
+    votes = [g_big_votes(rng, [p for p in parties if rng.random() < 0.9] or parties[:1]) for _ in range(n_votes)]
+    n = rng.randint(4, 14)
+    args = {'votes': votes, 'n': str(n)}
+    if rng.random() < 0.5:
+        args['prev'] = g_gains(rng, parties, max(2, n // 3), 0.6)
+    if rng.random() < 0.3:
+        args['max'] = g_caps(rng, parties, n)
+    return mk_case({'k': 'multi', 'rounds': rounds, 'depth': 1}, args, ['seatspec:int', 'votes_per_stage'])
+
+
+def gen_ties(rng):
+    """TieBreaking where there IS a tie: 2-3 places, 3+ members, a tiebreaker that ties again, nested breakers,
+    quotient ties of a distribution"""
+    plur, inp = leaf('plurality'), leaf('input_order')
+    cands = rng.sample(range(CANDS), rng.randint(3, 6))
+    t = rng.choice([1, 2, 5, 10 ** 18])
+    kind = rng.choice(['sel', 'sel', 'sel_nested', 'dist', 'dist'])
+    if kind in ('sel', 'sel_nested'):
+        k_tied = rng.randint(2, len(cands))
+        vals = [t] * k_tied + [t + rng.randint(1, 3) for _ in cands[k_tied:]]
+        votes = {'dict': [[c, str(v)] for c, v in zip(cands, vals)]}
+        above = len(cands) - k_tied
+        n = above + rng.randint(1, max(1, k_tied - 1))
+        tb = rng.choice([inp, inp, plur, {'k': 'pre', 'c': {'c': 'inverted_simple'}, 'e': plur}])
+        tree = {'k': 'tb', 'main': plur, 'tb': tb}
+        if kind == 'sel_nested':
+            tree = {'k': 'tb', 'main': {'k': 'tb', 'main': plur, 'tb': plur}, 'tb': inp}
+        if rng.random() < 0.3:
+            tree = {'k': 'bycon', 'e': tree, 'app': None}
+            votes = {'dict': [[CON0, votes], [CON0 + 1, g_simple_votes(rng, cands[:3])]]}
+        return mk_case(tree, {'votes': votes, 'n': str(n)}, ['seatspec:int'])
+    # quotient ties under D'Hondt: votes t*k give equal quotients
+    mult = [rng.choice([1, 2, 3]) for _ in cands]
+    votes = {'dict': [[c, str(t * m)] for c, m in zip(cands, mult)]}
+    main = rng.choice([leaf('ha', divisor='d_hondt'), leaf('ha', divisor='sainte_lague'), g_quota_leaf(rng, 'lr', True)])
+    tree = {'k': 'tb', 'main': main, 'tb': rng.choice([inp, plur])}
+    args = {'votes': votes, 'n': str(rng.randint(1, 7))}
+    if rng.random() < 0.3:
+        args['prev'] = g_gains(rng, cands, 2)
     return mk_case(tree, args, ['seatspec:int'])
 
 
@@ -1512,6 +1846,8 @@ def gen_directed(rng):
                       {'k': 'remapp', 'e': {'k': 'byparty', 'overall': ha, 'alloc': None}}]},
                    'app': {'ev': leaf('ha', divisor='sainte_lague')}},
                   {'votes': nested, 'n': str(rng.randint(4, 9))}, ['directed', 'seatspec:app_dist'])
+    yield mk_case({'k': 'bycon', 'e': {'k': 'fixed', 'e': ha, 'n': '2'}, 'app': None},
+                  {'votes': nested, 'n': '3'}, ['directed', 'seatspec:int'])
     yield mk_case({'k': 'unused', 'rounds': [ha, leaf('ha', divisor='sainte_lague')], 'quotas': ['droop'], 'depth': 1},
                   {'votes': {'dict': [[a, '50'], [b, '30'], [c, '21']]}, 'n': str(rng.randint(3, 6))}, ['directed'])
     yield mk_case({'k': 'unused', 'depth': 2, 'quotas': ['hagenbach_bischoff'],
@@ -1521,11 +1857,73 @@ def gen_directed(rng):
 
 
 def generate(rng, tier):
+    for i, case in enumerate(_generate(rng, tier)):
+        if rng.random() < 0.1 and 'warm' not in case:
+            _add_warm_call(rng, case)
+        yield _tag_semantics(case)
+
+
+def _add_warm_call(rng, case):
+    """the same wrapper OBJECT is first evaluated on another input (different votes, sometimes a call that fails)"""
+    a = case['args']
+    w = dict(a)
+    r = rng.random()
+    if r < 0.5:
+        w['votes'] = _scaled(a['votes'], rng.choice([3, 7]), reverse=True)
+        tag = 'state:second_call_after_other_votes'
+    elif r < 0.75 and 'prev' not in a and isinstance(a.get('n'), str):
+        w['n'] = str(int(Fraction(a['n'])) + 3)
+        tag = 'state:second_call_after_more_seats'
+    else:
+        w['votes'] = {'dict': []}
+        tag = 'state:second_call_after_failing_call'
+    case['warm'] = w
+    case['_tags'] = sorted(set(case['_tags']) | {tag, 'state:same_object_twice'})
+
+
+def _scaled(v, k, reverse=False):
+    if isinstance(v, str):
+        return num_str(Fraction(v) * k)
+    if isinstance(v, list):
+        return [_scaled(x, k, reverse) for x in v]
+    if isinstance(v, dict) and 'dict' in v:
+        ents = [[key, _scaled(x, k, reverse)] for key, x in v['dict']]
+        return {'dict': ents[::-1] if reverse else ents}
+    return v
+
+
+def _tag_semantics(case):
+    """after-the-fact tags `sem:…`: what the wrappers' own logic had to do on this input, taken from the hand
+    composition (leaf objects and converters only — no wrapper code takes part)"""
+    try:
+        root = build(case['tree'])
+        votes, kw = _args(case)
+        h = Hand()
+        try:
+            call_with_timeout(lambda: h.run(root, votes, kw), 5)
+            ok = True
+        except Exception:       # noqa
+            ok = False
+    except Exception:       # noqa
+        return case
+    tags = set(case['_tags']) | h.notes
+    if ok:
+        tags |= {'value:' + k for k in set(tree_kinds(case['tree'])) if k not in LEAF_TAKES}
+    case['_tags'] = sorted(tags)
+    return case
+
+
+def _generate(rng, tier):
     N = 3000 if tier == 'quick' else 120000
     for _ in range(12 if tier == 'quick' else 120):
         yield from gen_directed(rng)
     for _ in range(240 if tier == 'quick' else 6000):
         yield gen_unused(rng)
+    for _ in range(120 if tier == 'quick' else 3000):
+        yield gen_by_party(rng)
+        yield gen_ties(rng)
+    for _ in range(50 if tier == 'quick' else 1200):
+        yield gen_votes_per_stage(rng)
     for i in range(N):
         d = 1 + (i % 4)
         r = rng.random()
